@@ -10,7 +10,7 @@ RULE = ('G-sel graphs decorated with 1-4 metric nodes of every direction / refer
         'classify_all; DSGEvaluator.evaluate is run on every decodable architecture (<= 12 vectors) with complete, partial and '
         'NaN evaluator maps and compared with the model\'s evaluate (values as exact rationals, NaN by isnan); non-trivial = at '
         'least one metric with a direction; distinct = distinct graph')
-TRUSTED = ['metric names are M<id> so that name order = id order; the evaluator stub returns the generated value map']
+TRUSTED = ['metric names are M<id> so that name order = id order (in 30% of the cases with two or more metrics two of them share one name and specification; their mutual order is then not compared); the evaluator stub returns the generated value map']
 PARTIAL = []
 
 
@@ -27,6 +27,12 @@ def batches(tier, seed):
         if not c['kinds']:
             # no leaf available: hang a metric below a random node
             c['kinds'] = {}
+        # two metric nodes with one specification (name, direction, reference, declared type) on different nodes: they are
+        # different metrics all the same (one may be permanent, the other conditional)
+        mk = sorted(k for k, v in c['kinds'].items() if v[0] == 'metric')
+        if len(mk) >= 2 and rng.random() < 0.3:
+            a_, b_ = rng.sample(mk, 2)
+            c['kinds'][b_] = list(c['kinds'][a_][:4]) + [int(a_)]
         c['_i'] = i
         cases.append(c)
     yield 'g-metric', cases
@@ -115,6 +121,10 @@ def run_case(case):
         return {'impl': {'error': 'RuntimeError'}, 'nontrivial': True, 'tags': tags + ['ambiguous-rejected'], 'queries': []}
     if err is not None:
         return {'fail': {'clause': 'classification-raises', 'detail': 'RuntimeError: %s; model roles %s' % (err, roles)}, 'tags': tags}
+    if any(len(v) > 4 for v in kinds.values() if v[0] == 'metric'):
+        # equal names: the order among them is not determined by the documented name ordering
+        objs, cons, m_obj, m_con = sorted(objs), sorted(cons), sorted(m_obj), sorted(m_con)
+        tags.append('same-name-metrics')
     if objs != m_obj or cons != m_con:
         return {'fail': {'clause': 'classification-differs', 'detail': 'impl obj %s con %s; model obj %s con %s' % (objs, cons, m_obj, m_con)}, 'tags': tags}
     # constraint reference values and directions
@@ -157,10 +167,18 @@ def _eq(a, b):
     return Fraction(int(a[0]), int(a[1])) == Fraction(int(b[0]), int(b[1]))
 
 
+def _key(v):
+    return (1, 0) if v == 'nan' else (0, Fraction(int(v[0]), int(v[1])))
+
+
 def compare(case, r, ms):
+    same_names = any(len(v) > 4 for v in case.get('kinds', {}).values() if v[0] == 'metric')
     for impl, m in zip(r['impl'], ms):
         for k, name in ((0, 'objective'), (1, 'constraint')):
-            if len(impl[k]) != len(m[k]) or not all(_eq(a, b) for a, b in zip(impl[k], m[k])):
+            a_, b_ = list(impl[k]), list(m[k])
+            if same_names:          # the order among metrics with one name is not determined: compare as multisets
+                a_, b_ = sorted(a_, key=_key), sorted(b_, key=_key)
+            if len(a_) != len(b_) or not all(_eq(a, b) for a, b in zip(a_, b_)):
                 return {'clause': 'evaluate-%s-values-differ' % name, 'detail': 'impl %s model %s' % (impl[k], m[k])}
         mvm = sorted((n, v if v == 'nan' else tuple(v)) for n, v in m[2])
         mvi = sorted((n, v if v == 'nan' else tuple(v)) for n, v in impl[2])
